@@ -47,6 +47,7 @@ Definition algo_of_name (s : string) : option (pbkdf2_hashes * hash_id) :=
 
 (* the driver is built with overflow checks in the dev profile *)
 Definition run_pbkdf2 (a : pbkdf2_hashes * hash_id) (pw salt : bytes) (rounds len : N) : string :=
+  if (1048576 <? len)%N then out3 "TOOBIG" "-" "-" else   (* never build a huge unary nat *)
   let impl := match pbkdf2_impl true pw salt (fst a) rounds (N.to_nat len) with
               | Ok k => ok (kdf_hash k) +++ ";" +++ show_bytes (kdf_salt k)
               | Err => "ERR" | Panic => "PANIC" end in
@@ -84,7 +85,7 @@ Definition adapter_of_name (s : string) : option (adapter_kind * hash_id) :=
 Definition mode_of (s : string) : option (option nat) :=
   match s with
   | "n" => Some None
-  | String "r" k => match N_of_dec k with Some n => Some (Some (N.to_nat n)) | None => None end
+  | String "r" k => match N_of_dec k with Some n => Some (Some (N.to_nat (N.min n 1000))) | None => None end
   | _ => None
   end.
 
@@ -195,7 +196,7 @@ Definition run (op : string) (args : list string) : string :=
           end
       | "reset", ad :: mode :: n :: chunks =>
           match adapter_of_name ad, mode_of mode, N_of_dec n, expand_list chunks with
-          | Some k, Some rv, Some n', Some cs => run_reset k rv (N.to_nat n') cs
+          | Some k, Some rv, Some n', Some cs => run_reset k rv (N.to_nat (N.min n' 1000)) cs
           | _, _, _, _ => "BADARG"
           end
       | "get", [algo; reverse; m] =>
